@@ -405,9 +405,26 @@ def cmd_check(args):
         bad = [i for i in idxs if other.get(str(i)) != agg.digests[i]]
         det = {"samples": len(idxs), "mismatches": len(bad), "how": "same (seed, run index) executed again in a fresh interpreter with PYTHONHASHSEED=12345 and 3 workers; digests of schedule, outcomes, token logs and counters compared"}
         if bad:
-            print("HARNESS-ERROR %s non-deterministic runs: %s" % (prop, bad[:10]))
-            write_evidence(prop, tier, seed, agg, time.time() - t0, det)
-            return EXIT_HARNESS
+            # The same runs behave differently with process isolation.  On a correct
+            # tree that cannot happen; the usual cause is state that survives outside
+            # the pycparser modules (on sys, builtins, a stdlib module), which the
+            # in-process isolation does not reset and which therefore also hides the
+            # defect from the in-process search.  Judge those runs under process
+            # isolation here: a violation found that way is reported like any other.
+            runner.init_worker(repo, cfg, "fork")
+            found = []
+            for i in bad[:8]:
+                sres = runner.one_run((prop, seed, i))
+                if "harness_error" not in sres and not sres.get("ok", True):
+                    found.append(sres)
+            if found:
+                print("NOTE %s: %d sampled runs differ between in-process and process isolation; judged under process isolation" % (prop, len(bad)))
+                agg.violations.extend(found)
+                det["note"] = "isolation modes disagreed; runs re-judged under process isolation"
+            else:
+                print("HARNESS-ERROR %s non-deterministic runs: %s" % (prop, bad[:10]))
+                write_evidence(prop, tier, seed, agg, time.time() - t0, det)
+                return EXIT_HARNESS
     # violations
     known = load_known(prop)
     rc = EXIT_OK
